@@ -6,7 +6,10 @@ from vf import q, qlist, clist, cbool, cnat, copt, frac, fr_json
 ID = 'C02'
 COQ_DIR = 'C02'
 COQ_HEADER = 'From V Require Import Common.Num C02.Model.\nOpen Scope Q_scope.'
-RULE = ('stub property package of three user-defined chemicals with exact enthalpy H = sum n_i Cn_i (T - 298.15), Cn = 64, 32, 128; '
+RULE = ('stub property package of three user-defined chemicals whose mixture H / Cn models are exact and phase dependent: '
+        'H = sum n_i Cn_i (T - 298.15) with Cn = 64, 32, 128 in l/L/s/S and H = sum n_i (Cn_i (T - 298.15) + L_i) with Cn = 32, 16, 64, '
+        'L = 8192, 4096, 16384 in g; histories before the operation: property reads (fill the per-stream memo) and phase changes at '
+        'unchanged T, P, flows; '
         'stores of 2-5 streams (single-phase l/g/s/L and two-phase g/l MultiStreams, also as receivers of s/L inlets; dyadic flows '
         'incl. empty streams and 1/1024..1024; T = 300..400 K in quarters, six pressures).  kinds: mix (Stream.mix_from with the real solver: 1-4 inlets, empty inlets, None, Heat/Power '
         'objects, receiver among the inlets 0-2 times, Q in {0, +-dyadic}), mixs (the same with solve_T_at_HP/xsolve_T_at_HP replaced '
@@ -42,7 +45,10 @@ S_SETTER = 'setS'          # name of the model of the Stream.S setter
 
 PH = {'L': 1, 'S': 2, 'g': 3, 'l': 4, 's': 5}
 PHn = {v: k for k, v in PH.items()}
-CN = [64., 32., 128.]
+CN = [64., 32., 128.]            # heat capacities of the condensed phases (l, L, s, S)
+CNG = [32., 16., 64.]            # heat capacities of the gas
+LAT = [8192., 4096., 16384.]     # latent offset of the gas:  H(g, T) = sum n (CNG (T - Tref) + LAT)
+SG = [16., 8., 32.]              # entropy offset of the gas (S is not evaluated by the model; the oracle needs S(l) != S(g))
 HF = [-1024., -512., 256.]
 IDS = ['A_', 'B_', 'C_']
 TREF = F(298.15)
@@ -58,6 +64,22 @@ def env():
         _env['tmo'] = tmo
         _env['mm'] = mm
         _env['thermo'] = tmo.settings.get_thermo()
+        # the mixture models of this package only (slots of its IdealMixture): exact, phase-dependent H and Cn;
+        # S keeps the package's own model plus a gas offset
+        mix = _env['thermo'].mixture
+        def items(mol):
+            return mol.dct.items() if hasattr(mol, 'dct') else [(i, x) for i, x in enumerate(np.asarray(mol, float)) if x]
+        def H_model(phase, mol, T, P):
+            if phase == 'g': return sum([x * (CNG[i] * (T - 298.15) + LAT[i]) for i, x in items(mol)])
+            return sum([x * (CN[i] * (T - 298.15)) for i, x in items(mol)])
+        def Cn_model(phase, mol, T, P=None):
+            c = CNG if phase == 'g' else CN
+            return sum([x * c[i] for i, x in items(mol)])
+        S_pkg = mix._S
+        def S_model(phase, mol, T, P):
+            S = S_pkg(phase, mol, T, P)
+            return S + sum([x * SG[i] for i, x in items(mol)]) if phase == 'g' else S
+        mix._H, mix.Cn, mix._S = H_model, Cn_model, S_model
     _env['tmo'].settings.set_thermo(_env['thermo'])
     _env['ids'] = IDS
     return _env
@@ -114,12 +136,26 @@ def gen_script(rng, fail_single=None):
     return tbl
 
 def stub_C(d):
-    return sum(F(x) * F(c) for row in d['rows'].values() for x, c in zip(row, CN))
+    return sum(F(x) * F(c) for ph, row in d['rows'].items() for x, c in zip(row, CNG if ph == 'g' else CN))
 def stub_H(d):
-    return stub_C(d) * (F(d['T']) - TREF)
+    return stub_C(d) * (F(d['T']) - TREF) + sum(F(x) * F(c) for ph, row in d['rows'].items() if ph == 'g' for x, c in zip(row, LAT))
 def is_empty(d):
     return not any(any(r) for r in d['rows'].values())
 TMIN = 50     # the stub's enthalpy is only defined for T > 0: targets that need a colder stream are outside the property
+
+def gen_pre(rng, streams, p=0.45):
+    """history before the operation: reads of H / S / h / Hnet (they fill the per-stream property memo) interleaved with phase
+    changes of single-phase streams at unchanged T, P and flows"""
+    if rng.random() > p: return []
+    pre = []
+    for _ in range(rng.randint(1, 4)):
+        i = rng.randrange(len(streams))
+        pre.append(['read', i, rng.choice(['H', 'H', 'S', 'h', 'Hnet'])])
+        if not streams[i]['multi'] and rng.random() < 0.75:
+            ph, = streams[i]['rows']
+            pre.append(['phase', i, rng.choice([x for x in 'glgls' if x != ph])])
+            if rng.random() < 0.3: pre.append(['read', i, 'H'])
+    return pre
 
 def gen_mix(rng, scripted, fail_single=False):
     n = rng.randint(2, 5)
@@ -142,6 +178,7 @@ def gen_mix(rng, scripted, fail_single=False):
     if rng.random() < 0.08:
         others.insert(rng.randrange(len(others) + 1), ['none'])
     case = {'kind': 'mixs' if scripted else 'mix', 'streams': streams, 'r': r, 'others': others, 'Q': float(rng.choice(QS))}
+    case['pre'] = gen_pre(rng, streams)
     ne = [streams[o[1]] for o in others if o[0] == 's' and not is_empty(streams[o[1]])]
     if ne and not scripted:
         H = sum(stub_H(d) for d in ne) + F(case['Q']) + sum(F(o[1]) for o in others if o[0] in ('heat', 'power'))
@@ -165,7 +202,17 @@ def gen_sep(rng):
     Cr, Co = stub_C(streams[r]), stub_C(streams[o])
     if r != o and Cr != Co and TREF + (stub_H(streams[r]) - stub_H(streams[o])) / (Cr - Co) < TMIN:
         streams[o]['T'] = streams[r]['T']
-    return {'kind': 'sep', 'streams': streams, 'r': r, 'o': o}
+    case = {'kind': 'sep', 'streams': streams, 'r': r, 'o': o, 'pre': gen_pre(rng, streams, 0.35)}
+    if r != o and rng.random() < 0.4:
+        # a product of an isothermal unit: the stream taken out is at exactly the receiver's temperature, often in another phase
+        streams[o]['T'] = streams[r]['T']
+        if not streams[o]['multi'] and rng.random() < 0.8:
+            ph, = streams[o]['rows']
+            rph = next(iter(streams[r]['rows']))
+            new = 'g' if (rph != 'g' and not streams[r]['multi']) else rng.choice('lg')
+            if streams[r]['multi'] or new != rph:
+                streams[o]['rows'] = {new: streams[o]['rows'][ph]}
+    return case
 
 def gen_set(rng):
     s = gen_stream(rng, empty_p=0.1, multi_p=0.3)
@@ -174,6 +221,7 @@ def gen_set(rng):
     mode = rng.choice(['value', 'value', 'current', 'zero'])
     case = {'kind': 'set', 'stream': s, 'which': which, 'mode': mode,
             'value': float(rng.choice([0, 1024, -1024, 4096, 8192, F(1, 2), 65536, 100, 20000]))}
+    case['pre'] = gen_pre(rng, [s], 0.5)
     C = stub_C(s)
     if not scripted and C > 0 and case['value'] < 0:
         tot = sum(F(x) for row in s['rows'].values() for x in row)
@@ -302,13 +350,28 @@ def readable(f):
     try: return f()
     except RuntimeError: return None
 
+def apply_pre(case, objs):
+    for op in case.get('pre', []):
+        s = objs[op[1]]
+        if op[0] == 'read': getattr(s, op[2])
+        else: s.phase = op[2]
+
+def true_H(s):
+    """enthalpy flow straight from the mixture model, bypassing the stream's memo"""
+    tmo = _env['tmo']
+    if isinstance(s, tmo.MultiStream):
+        return float(s.mixture.xH(zip(s.phases, s.imol.data.rows), s.T, s.P))
+    return float(s.mixture.H(s.phase, s.mol, s.T, s.P))
+
 def run_impl(case):
     e = env(); mm = e['mm']
     k = case['kind']
     out = {'err': None}
     if k in ('mix', 'mixs', 'sep'):
         objs = [build_stream(d) for d in case['streams']]
+        apply_pre(case, objs)
         out['init'] = [snap(s) for s in objs]
+        out['H0'] = readable(lambda: [fr_json(frac(s.H)) for s in objs]) if case.get('pre') and len(case['pre']) % 2 else None
         try:
             with solver_ctx(case):
                 if k == 'sep':
@@ -322,6 +385,7 @@ def run_impl(case):
         return out
     if k == 'set':
         s = build_stream(case['stream'])
+        apply_pre(case, [s])
         out['init'] = snap(s)
         with solver_ctx(case):
             v = set_value(case, s)
@@ -400,8 +464,10 @@ def cscript(tbl):
 def coracles(case):
     if case.get('script'):
         t = cscript(case['script'])
-        return f'(script_oracles {qlist(CN)} {qlist(HF)} {q(TREF)} {t} {t})'
-    return f'(lin_oracles {qlist(CN)} {qlist(HF)} {q(TREF)})'
+        return f'(script_oracles {CSTUB} {qlist(HF)} {q(TREF)} {t} {t})'
+    return f'(lin_oracles {CSTUB} {qlist(HF)} {q(TREF)})'
+
+CSTUB = f'(mkP {qlist(CN)} {qlist(CNG)} {qlist(LAT)})'
 
 def cinlet(o):
     if o[0] == 's': return f'(IStream {cnat(o[1])})'
@@ -435,25 +501,33 @@ def model_term(case, out):
     raise ValueError(k)
 
 def cancels(snapshot, H):
-    """float H = C*(T - Tref) loses digits when it is tiny relative to C*T; then only the state (T to 1e-9) is compared"""
+    """float H = C*(T - Tref) + L loses digits when it is tiny relative to C*T + L; then only the state (T to 1e-9) is compared"""
     C = sum(F(x) * F(c) for _, row in snapshot['pm'] for x, c in zip(row, CN))
-    return abs(F(H)) < F(1, 100000) * C * abs(F(snapshot['T']))
+    L = sum(F(x) * F(c) for p, row in snapshot['pm'] if p == PH['g'] for x, c in zip(row, LAT))
+    return abs(F(H)) < F(1, 100000) * (C * abs(F(snapshot['T'])) + L)
 
 def coq_case(case, out):
     k = case['kind']
     t = model_term(case, out)
     if k in ('mix', 'mixs', 'sep'):
         exp = cres(out['err'], clist([cstream(s) for s in out['final']]))
+        pre = 'true'
+        if out.get('H0') and not any(cancels(sn, h) for sn, h in zip(out['init'], out['H0'])):
+            # what the getters returned after the history and before the operation
+            pre = f'(Hs_ok {coracles(case)} {clist([cstream(s) for s in out["init"]])} {qlist([F(x) for x in out["H0"]])})'
         if out['H'] is None or any(cancels(sn, h) for sn, h in zip(out['final'], out['H'])):
-            return f'(res_eqb store_eqb {t} {exp})'
-        return f'(store_check {coracles(case)} {t} {exp} {qlist([F(x) for x in out["H"]])})'
+            return f'({pre} && res_eqb store_eqb {t} {exp})'
+        return f'({pre} && store_check {coracles(case)} {t} {exp} {qlist([F(x) for x in out["H"]])})'
     if k == 'set':
         O = coracles(case)
         fin = cstream(out['final'])
+        cur = 'true'
+        if case['mode'] == 'current' and case['which'] == 'H' and not cancels(out['init'], out['value']):
+            cur = f'qapproxb (getH {O} {cstream(out["init"])}) {q(out["value"])}'      # the value the getter handed out
         if out['H'] is None or cancels(out['final'], out['H'][0]) or abs(F(out['H'][1])) < F(1, 100000) * abs(F(out['H'][0])):
-            return f'(sres_eqb {t} {fin} {copt(out["err"])})'
+            return f'({cur} && sres_eqb {t} {fin} {copt(out["err"])})'
         H, Hnet, h = out['H']
-        return (f'(sres_eqb {t} {fin} {copt(out["err"])} && qapproxb (getH {O} (fst {t})) {q(F(H))} && '
+        return (f'({cur} && sres_eqb {t} {fin} {copt(out["err"])} && qapproxb (getH {O} (fst {t})) {q(F(H))} && '
                 f'qapproxb (getHnet {O} (fst {t})) {q(F(Hnet))} && '
                 f'opt_eqb qapproxb (geth {O} (fst {t})) {copt(h, lambda x: q(F(x)))})')
     if k == 'iter':
@@ -533,11 +607,15 @@ def oracle(case):
     tolH = 1e-6 if real else 1e-7
     if k in ('mix', 'mixs'):
         objs = [build_stream(d) for d in case['streams']]
+        apply_pre(case, objs)
         others = build_others(case, objs)
         r = objs[case['r']]
         ne = [o for o in others if isinstance(o, tmo.Stream) and not o.isempty()]
         if not ne: return None
-        H_in = sum(o.H for o in ne) + case['Q'] + sum(o.heat for o in others if isinstance(o, (tmo.Heat, tmo.Power)))
+        for o in ne:
+            if not close(o.H, true_H(o), tolH):
+                return f'stale-H: Stream.H returns {o.H!r} but the mixture model gives {true_H(o)!r} for phase {o.phase!r} (history {case.get("pre")})'
+        H_in = sum(true_H(o) for o in ne) + case['Q'] + sum(o.heat for o in others if isinstance(o, (tmo.Heat, tmo.Power)))
         P_min = min(o.P for o in ne)
         total_in = sum(o.F_mol for o in ne)
         before = [state(s) for s in objs]
@@ -554,15 +632,19 @@ def oracle(case):
             if s is not r and state(s) != before[j]: return f'{tag}: mix_from modified inlet/bystander stream {j}'
         if not close(r.F_mol, total_in): return None   # material is C01's subject
         if r.F_mol == 0: return None
-        if not close(r.H, H_in, tolH):
-            return f'{tag}: H of the receiver after mixing is {r.H!r}, sum of inlet H plus heat is {H_in!r}'
+        if not close(true_H(r), H_in, tolH):
+            return f'{tag}: H of the receiver after mixing is {true_H(r)!r}, sum of inlet H plus heat is {H_in!r}'
         if r.P != P_min:
             return f'{tag}: P of the receiver is {r.P!r}, lowest inlet pressure is {P_min!r}'
         return None
     if k == 'sep':
         objs = [build_stream(d) for d in case['streams']]
+        apply_pre(case, objs)
         r, o = objs[case['r']], objs[case['o']]
-        H_exp = 0. if r is o else r.H - o.H
+        for x in (r, o):
+            if x.F_mol and not close(x.H, true_H(x), tolH):
+                return f'stale-H: Stream.H returns {x.H!r} but the mixture model gives {true_H(x)!r} for phase {x.phase!r} (history {case.get("pre")})'
+        H_exp = 0. if r is o else true_H(r) - true_H(o)
         before = [state(s) for s in objs]
         try:
             r.separate_out(o)
@@ -573,12 +655,16 @@ def oracle(case):
         for j, s in enumerate(objs):
             if s is not r and state(s) != before[j]: return f'sep: separate_out modified stream {j}'
         if r.F_mol == 0: return None
-        if not close(r.H, H_exp, tolH): return f'sep: H after separate_out is {r.H!r}, H(self) - H(other) was {H_exp!r}'
+        if not close(true_H(r), H_exp, tolH):
+            return f'sep: H after separate_out is {true_H(r)!r}, H(self) - H(other) was {H_exp!r} (T {r.T!r}, other T {o.T!r}, phases {r.phase!r}/{o.phase!r})'
         return None
     if k == 'set':
         s = build_stream(case['stream'])
+        apply_pre(case, [s])
         w = case['which']
         if s.isempty() or s.F_mol <= 0: return None
+        if not close(s.H, true_H(s), tolH):
+            return f'stale-H: Stream.H returns {s.H!r} but the mixture model gives {true_H(s)!r} for phase {s.phase!r} (history {case.get("pre")})'
         if any(x < 0 for x in state(s)[2]): return None
         if case['mode'] == 'current':
             T0, ph0 = s.T, s.phases
